@@ -254,6 +254,11 @@ def make_watcher(kind, is_async=False, sync_callbacks=False):
         def close(self):
             pass
 
+    part = None
+    if kind.startswith("part:"):
+        # a partially extended watcher: offers exactly the named operation-specific callbacks
+        part = set(x for x in kind[5:].split(",") if x)
+        kind = "ex"
     if kind == "ex":
 
         class W(W):  # noqa
@@ -278,7 +283,7 @@ def make_watcher(kind, is_async=False, sync_callbacks=False):
             def update_for_remove_policies(self, sec, ptype, *rules):
                 log.append(f"update_for_remove_policies/{ptype}/{enc_rules(rules[0]) if len(rules) == 1 else 'ARGS' + repr(rules)}")
 
-    if kind == "upd":
+    if kind == "upd" or part is not None:
 
         class W(W):  # noqa
             def update_for_update_policy(self, old_rule, new_rule):
@@ -287,6 +292,10 @@ def make_watcher(kind, is_async=False, sync_callbacks=False):
             def update_for_update_policies(self, old_rules, new_rules):
                 log.append(f"update_for_update_policies/{enc_rules(old_rules)}/{enc_rules(new_rules)}")
 
+    if part is not None:
+        for name in [n for n in dir(W) if n.startswith("update_for_")]:
+            if name[len("update_for_"):] not in part:
+                setattr(W, name, None)  # not offered
     if is_async and not sync_callbacks:
         base = W
 
@@ -295,7 +304,7 @@ def make_watcher(kind, is_async=False, sync_callbacks=False):
 
         # the async enforcer awaits the operation-specific callbacks when they are coroutine functions and calls
         # the generic update() synchronously
-        for name in [n for n in dir(base) if n.startswith("update_for_")]:
+        for name in [n for n in dir(base) if n.startswith("update_for_") and getattr(base, n) is not None]:
             fn = getattr(base, name)
 
             def mk(fn):
@@ -887,6 +896,8 @@ def op_alphabet(shape, level="full"):
         for r in G2:
             ops += [("add", "g2", r), ("remove", "g2", r)]
         ops += [("addmany", "g2", [G2[0], G2[1]]), ("removefiltered", "g2", 1, ["grp"]), ("removemany", "g2", [G2[0]]), ("removemany", "g2", [G2[0], G2[1]])]
+        # a rule shorter than the SECOND role definition: alone and inside a batch
+        ops += [("add", "g2", G2[0][:-1]), ("addmany", "g2", [G2[1], G2[0][:-1]])]
     if level == "full":
         ops += [("update", P[0], P[2 if len(P) > 2 else 1]), ("update", P[0], P[0][:-1] + ["write"]), ("updatemany", [P[0]], [P[0][:-1] + ["write"]])]
         ops += [("clear",), ("build",), ("load", None), ("save",), ("updateread", "x")]
